@@ -28,9 +28,11 @@ type groupCfg struct {
 	Harness  string         `json:"harness"` // dir under /verif/harness
 	Match    string         `json:"match"`
 	Split    map[string]int `json:"split,omitempty"`    // harness name regexp -> number of forced first choices
+	Split2   map[string][]int `json:"split2,omitempty"` // harness name regexp -> [n1, n2]: forced first two choices
 	Thorough bool           `json:"thorough_only,omitempty"`
 	MaxInstr int            `json:"max_instr,omitempty"`
 	NoNative bool           `json:"no_native,omitempty"` // harness uses environment stubs that cannot be replayed natively
+	Solver   string         `json:"solver,omitempty"`    // solver back end for this group (default: --solver)
 }
 
 type propCfg struct {
@@ -79,8 +81,9 @@ func cmdCheck(args []string) int {
 	only := fs.String("only", "", "regexp: run only matching harnesses (debugging; evidence not written)")
 	workers := fs.Int("workers", 16, "parallel jobs")
 	replay := fs.String("replay", "", "replay a counterexample file natively")
-	solver := fs.String("solver", "z3", "solver")
+	solver := fs.String("solver", "z3-new", "solver")
 	noNative := fs.Bool("nonative", false, "skip native witness validation (debugging)")
+	jobDeadline := fs.Int("jobdeadline", 0, "per job deadline in seconds (default 600 quick / 3000 thorough)")
 	fs.Parse(args)
 	if fs.NArg() < 1 {
 		fmt.Fprintln(os.Stderr, "usage: gosym check <property> [--tier quick|thorough]")
@@ -107,7 +110,19 @@ func cmdCheck(args []string) int {
 		return replayFile(*repo, *verif, pc, *replay)
 	}
 
+	solverSet := false
+	fs.Visit(func(f *flag.Flag) {
+		if f.Name == "solver" {
+			solverSet = true
+		}
+	})
 	thorough := *tier == "thorough"
+	if *jobDeadline == 0 {
+		*jobDeadline = 600
+		if thorough {
+			*jobDeadline = 3000
+		}
+	}
 	var onlyRe *regexp.Regexp
 	if *only != "" {
 		onlyRe = regexp.MustCompile(*only)
@@ -157,7 +172,19 @@ func cmdCheck(args []string) int {
 					n = k
 				}
 			}
-			if n <= 1 {
+			var n2 []int
+			for pat, k := range g.Split2 {
+				if regexp.MustCompile(pat).MatchString(f.Name()) {
+					n2 = k
+				}
+			}
+			if len(n2) == 2 {
+				for i := 0; i < n2[0]; i++ {
+					for j := 0; j < n2[1]; j++ {
+						jobs = append(jobs, job{fn: f, prefix: []int{i, j}, group: g})
+					}
+				}
+			} else if n <= 1 {
 				jobs = append(jobs, job{fn: f, group: g})
 			} else {
 				for i := 0; i < n; i++ {
@@ -174,7 +201,15 @@ func cmdCheck(args []string) int {
 				defer wg.Done()
 				sem <- struct{}{}
 				defer func() { <-sem }()
-				results[i] = runJob(ld.Prog, jb, *solver, thorough)
+				sv := *solver
+				if jb.group.Solver != "" && !solverSet {
+					sv = jb.group.Solver
+				}
+				results[i] = runJob(ld.Prog, jb, sv, thorough, time.Duration(*jobDeadline)*time.Second)
+				if os.Getenv("GOSYM_JOBS") != "" {
+					r := results[i]
+					fmt.Fprintf(os.Stderr, "job %s%v paths=%d obl=%d viol=%d q=%d solver=%.1fs wall=%.1fs\n", jb.fn.Name(), jb.prefix, r.Paths, r.Obligations, len(r.Violations), r.Queries, r.SolverSec, r.WallSec)
+				}
 			}(i, jb)
 		}
 		wg.Wait()
@@ -419,7 +454,7 @@ func cmdCheck(args []string) int {
 				"functions_encoded":             fl,
 				"repo_functions_encoded":        repoFns,
 				"stubs_hit":                     stubl,
-				"solver":                        *solver + " (z3 -in, incremental push/pop)",
+				"solver":                        solverNames(pc, *solver, solverSet) + " (one long-lived process per job, incremental push/pop)",
 				"solver_queries":                queries,
 				"solver_sec":                    round2(solverSec),
 				"ssa_instructions_executed":     instrs,
@@ -459,6 +494,33 @@ func cmdCheck(args []string) int {
 	return 0
 }
 
+func solverNames(pc *propCfg, def string, set bool) string {
+	names := map[string]bool{}
+	for _, g := range pc.Groups {
+		if g.Solver != "" && !set {
+			names[g.Solver] = true
+		} else {
+			names[def] = true
+		}
+	}
+	var l []string
+	for n := range names {
+		switch n {
+		case "z3-new":
+			n = "z3 5.1.0 (z3-new)"
+		case "z3":
+			n = "z3 4.8.12"
+		case "cvc5-int":
+			n = "cvc5 1.0 --solve-bv-as-int=sum (bit-vectors as integers with mod 2^k semantics)"
+		case "cvc5":
+			n = "cvc5 1.0"
+		}
+		l = append(l, n)
+	}
+	sort.Strings(l)
+	return strings.Join(l, ", ")
+}
+
 func round2(f float64) float64 { return float64(int(f*100+0.5)) / 100 }
 
 func readJSON(p string, v interface{}) error {
@@ -469,8 +531,9 @@ func readJSON(p string, v interface{}) error {
 	return json.Unmarshal(b, v)
 }
 
-func runJob(prog *ssa.Program, jb job, solver string, thorough bool) (res *interp.Result) {
+func runJob(prog *ssa.Program, jb job, solver string, thorough bool, deadline time.Duration) (res *interp.Result) {
 	opts := interp.DefaultOptions()
+	opts.Deadline = time.Now().Add(deadline)
 	opts.Solver = solver
 	opts.Thorough = thorough
 	opts.Witnesses = 3
